@@ -146,7 +146,10 @@ theorem opAdd_ensure_refines {o : Opts} {e : Bool} {r : Root} {op : Op} {sop : S
     (hq : ∀ toks, Spec.parsePointer op.path = some toks → ∀ t ∈ toks, QK e t = true) :
     OpRef e (Spec.applyOp (specOpts o) sz acc (den r.con) sop) (opAdd o r op) := by
   cases hp : Spec.parsePointer op.path with
-  | none => simp only [Spec.applyOp, hpath, hp, OpRef]
+  | none =>
+    -- a pointer without a leading `/`: `ensurePathExists` does nothing, `findObject` finds nothing
+    rw [spec_path_none (by rw [hpath]; exact hp) (by simp [hk]), opAdd_path_none_any o r op hp]
+    exact ⟨.missing, rfl⟩
   | some toks =>
     cases toks with
     | nil =>
